@@ -33,15 +33,15 @@ where
                 match got {
                     Some(item) => {
                         let (k, kid, vid) = see(&item);
-                        vassert!([C12, C05], k.map_or(true, |k| k == want as u8) && kid.map_or(true, |x| x == 8 + want as u8) && vid.map_or(true, |x| x == want as u8), "iterator yielded a different entry than the next one in LRU order from that end");
+                        vassert!([C12, C05, C07], k.map_or(true, |k| k == want as u8) && kid.map_or(true, |x| x == 8 + want as u8) && vid.map_or(true, |x| x == want as u8), "iterator yielded a different entry than the next one in LRU order from that end");
                         drop(item);
                     }
                     None => {
-                        vassert!([C12], false, "iterator ended before every entry was yielded");
+                        vassert!([C12, C05, C07], false, "iterator ended before every entry was yielded");
                     }
                 }
             } else {
-                vassert!([C12], got.is_none(), "iterator yielded an entry after all entries had been yielded (each entry exactly once / fused)");
+                vassert!([C12, C05, C07], got.is_none(), "iterator yielded an entry after all entries had been yielded (each entry exactly once / fused)");
                 std::mem::forget(got);
             }
         }
